@@ -86,6 +86,14 @@ claim('C11', 'order-constant agreement + guard-dominates-action + recursion-prog
       'and renames private copies of the axes only. The value at each grouped position follows from NumPy C-order semantics (trusted).',
       'Assumes ndarray.reshape C order and np.meshgrid(indexing=ij)+ravel row-major enumeration.', 'DESIGN.md §3 C11')
 
+claim('C12', 'companion/guard analysis of the positional joins (the safeguard runs on the joined list, values and labels come from the same name-normalised list), decision table of concatenate, input-form table, reference-update rule of _get_axes',
+      'Decides structural clauses of C12: in stack the alignment check _get_axes runs on exactly the list whose values are joined and its ValueError is re-raised; '
+      '_get_axes compares non-singleton axes label-wise by name and replaces its reference only while it is missing or a singleton; the list joined positionally by '
+      'np.array / np.concatenate has been transposed by name to the first array\'s dimension order and is the list the labels and secondary axes are taken from; new '
+      'axis / concatenated axis sit at the same position on the values and the axes side; the (align, _no_check) table of concatenate and who may pass _no_check; '
+      'new-axis name guards; list, tuple and dict input forms are accepted. Slice-by-slice equality with the inputs is not decided.',
+      'Assumes np.array(list) stacks along a new first axis and np.concatenate semantics.', 'DESIGN.md §3 C12')
+
 UNDER_CONSTRUCTION = 'checker under construction in this session (claimed in DESIGN.md, not yet registered)'
 for pid in ['C01', 'C03', 'C04', 'C05', 'C06', 'C07', 'C08', 'C09', 'C10', 'C11', 'C12', 'C13', 'C14', 'C15', 'C16',
             'C17', 'C18', 'C19']:
